@@ -21,7 +21,12 @@ def finding_key(req, obs, detail):
     if m:
         # path relative to the repository root, wherever the repository is checked out (VERIF_REPO)
         path = re.sub(r"^.*?((?:hlsl|msl|ir|typer|parser|formatter|preprocess|text|ast|src)/(?:src/)?[^/]+\.rs)$", r"\1", m.group(1))
-        return "panic %s: %s" % (path, re.sub(r"\d+", "N", m.group(2)))
+        key = "panic %s: %s" % (path, re.sub(r"\d+", "N", m.group(2)))
+        if "literal should not be required on output" in key and "?" in _fields(req)[1]:
+            # a vector of a literal type: repaired for binary operations (fix 40c6233: the bare key is a `fixed` record, so its
+            # return is a VIOLATION); parse_expr_ternary still builds such a type for the arms of ?: — a known finding of its own
+            key += " [operand of ?:]"
+        return key
     f = _fields(req)
     # the specific input: source text, function and argument vectors (ctx / ir are derived from the source)
     return "input " + "\t".join(f[1:4])
@@ -157,7 +162,7 @@ SPEC = {
     "lean_modules": ["RsslVerif.Thm.C01", "RsslVerif.Thm.C01Vec", "RsslVerif.Thm.C09"],
     "theorems": [T + n for n in [
         "op_table_is_identity", "op_table_injective", "intrinsic_table_is_identity", "exporter_shape_as_modelled",
-        "literal_value_preserved", "literal_total", "literal_int32_min",
+        "literal_value_preserved", "literal_total", "literal_never_panics", "literal_int32_min",
         "gen_sem_expr", "gen_sem_expr_plain", "gen_sem_stmt", "gen_sem_stmts", "scope_block_push_is_append",
         "gen_sem_func", "gen_sem_program",
         "cast_to_literal_dropped_changes_meaning",
@@ -165,7 +170,7 @@ SPEC = {
         "exporter_vec_shape_as_modelled", "swizzle_letters_are_identity", "vector_type_names_roundtrip",
         "vector_intrinsic_table_is_identity", "wide_constants_keep_kind_and_payload",
         "gen_sem_vec_expr", "gen_sem_vec_expr_plain", "gen_sem_vec_assign", "scalar_cast_then_widen_differs",
-        "dropping_inner_shape_cast_changes_meaning", "literal_vector_cast_panics"]] + [
+        "dropping_inner_shape_cast_changes_meaning", "vector_op_literal_in_concrete_type", "literal_vector_cast_panics"]] + [
         # the text leg (printing the exported tree and reading it back) is property C09's; its table obligations are
         # C01 obligations too: a change of the printer's precedence / associativity tables breaks them
         "RsslVerif.Thm.C09." + n for n in ["tables_agree", "assoc_agrees", "roundtrip_expr_partial", "paren_rule_matches_grammar"]],
@@ -216,7 +221,11 @@ SPEC = {
                   "increment of vectors, no matrices, structs, arrays, enums, methods, templates, default parameters, overloads, vector built-ins — "
                   "those are covered by the C01.vfn stream only (test, two independent evaluators, both flavours, bit-exact), as are "
                   "16/64-bit constants not at all; casts to a literal type are excluded (negation proved with a witness and replayed; "
-                  "casts to a *vector* of a literal type panic the exporter: proved as literal_vector_cast_panics, known finding); "
+                  "a vector operation with a literal operand (`boolvec + 1`, `intvec * 1.5`) is typed in the concrete vector type since "
+                  "fix 40c6233 and proved exported with its meaning kept (vector_op_literal_in_concrete_type); "
+                  "casts to a *vector* of a literal type still panic the exporter: proved as literal_vector_cast_panics; the type "
+                  "checker still builds one for the arms of ?: — known finding; generate_literal never panics on a modelled constant, "
+                  "an IntLiteral beyond +-u64::MAX is the export error IntLiteralOutOfRange since fix 6017bad: literal_never_panics); "
                   "printing/parsing of the tree is C09's (cited obligations tables_agree, assoc_agrees, paren_rule_matches_grammar, "
                   "roundtrip_expr_partial; composed informally), name hygiene C15's.",
     "trusted_base": [
